@@ -180,7 +180,12 @@ func c16Format(c *Ctx, pool *Pool, i int, thorough bool) error {
 	r := NewRng(SubSeed(seed, "canon", 0))
 	if r.Chance(1, 3) {
 		var in2 []byte
-		switch r.Intn(6) {
+		switch r.Intn(8) {
+		case 6:
+			// the canonical text as a CRLF checkout would hold it
+			in2 = bytes.ReplaceAll(out, []byte("\n"), []byte("\r\n"))
+		case 7:
+			in2 = append(bytes.ReplaceAll(out, []byte("\n"), []byte("\r\n")), '\r', '\n')
 		case 0:
 			in2 = append(append([]byte{}, out...), '\n')
 		case 1:
